@@ -11,6 +11,7 @@ type monad struct {
 	some string
 	chk  string
 	conv string // harness helper turning M[T] into M[[]int] without library code
+	chkUnit string // harness helper for members returning M[fp.Unit] whose callback records what it received
 	// builder methods taking an already wrapped operand / a thunk, besides Ap and ApFunc
 	apWrapped map[string]string    // method -> wrapper function of the operand
 	apThunk   map[string][2]string // method -> (thunk result type ctor, wrapper)
@@ -20,9 +21,15 @@ var (
 	optionM = monad{pkg: "option", ty: func(x string) string { return "fp.Option[" + x + "]" }, some: "option.Some", chk: "chkOpt", conv: "optInts",
 		apWrapped: map[string]string{"ApOption": "option.Some"},
 		apThunk:   map[string][2]string{"ApOptionFunc": {"fp.Option", "option.Some"}}}
-	tryM = monad{pkg: "try", ty: func(x string) string { return "fp.Try[" + x + "]" }, some: "try.Success", chk: "chkTry", conv: "tryInts",
+	tryM = monad{pkg: "try", ty: func(x string) string { return "fp.Try[" + x + "]" }, some: "try.Success", chk: "chkTry", conv: "tryInts", chkUnit: "chkTryUnit",
 		apWrapped: map[string]string{"ApOption": "option.Some", "ApTry": "try.Success"},
 		apThunk:   map[string][2]string{"ApOptionFunc": {"fp.Option", "option.Some"}, "ApTryFunc": {"fp.Try", "try.Success"}}}
+	// futureM: every operand is an already completed future; chkFut (c14_test.go) installs a run-to-completion
+	// task queue as the default executor through the verif spawn hook, drains it after the call and reads the
+	// result. Members are called without their optional trailing `exec ...fp.Executor` argument.
+	futureM = monad{pkg: "future", ty: func(x string) string { return "fp.Future[" + x + "]" }, some: "future.Successful", chk: "chkFut", conv: "futInts", chkUnit: "chkFutUnit",
+		apWrapped: map[string]string{"ApOption": "option.Some", "ApTry": "try.Success", "ApFuture": "future.Successful"},
+		apThunk:   map[string][2]string{"ApOptionFunc": {"fp.Option", "option.Some"}, "ApTryFunc": {"fp.Try", "try.Success"}, "ApFutureFunc": {"fp.Future", "future.Successful"}}}
 )
 
 func (mo monad) clause(m *member, name, stmts, res, want string) string {
@@ -203,6 +210,10 @@ func regMonad(mo monad) {
 			return "fp.Option[" + A + "]", true
 		case "ApTry":
 			return "fp.Try[" + A + "]", true
+		case "ApFuture":
+			return "fp.Future[" + A + "]", true
+		case "ApFutureFunc":
+			return "func() fp.Future[" + A + "]", true
 		case "ApOptionFunc":
 			return "func() fp.Option[" + A + "]", true
 		case "ApTryFunc":
@@ -370,7 +381,7 @@ func regMonad(mo monad) {
 			g.sub(m, k, k, b.String())
 		}
 	}
-	apVariants := []string{"Ap", "ApOption", "ApTry", "ApFunc", "ApOptionFunc", "ApTryFunc"}
+	apVariants := []string{"Ap", "ApOption", "ApTry", "ApFuture", "ApFunc", "ApOptionFunc", "ApTryFunc", "ApFutureFunc"}
 	reg(p+".func.Applicative", builder("ApplicativeFunctor", apVariants))
 	reg(p+".func.Chain", builder("MonadChain", append(append([]string{}, apVariants...), "Map", "FlatMap", "HListMap", "HListFlatMap")))
 }
@@ -378,11 +389,15 @@ func regMonad(mo monad) {
 func init() {
 	regMonad(optionM)
 	regMonad(tryM)
+	regMonad(futureM)
 
 	both := []scheme{sInt, sT}
-	// ---- try only ---------------------------------------------------------------------
+	// ---- try and future ---------------------------------------------------------------
 	// FuncN(f)(a..) = Apply(f(a..)); PtrN: f returns (*R, error), result Success(*ptr)
-	tryFunc := func(curried bool, kind string) emitter {
+	// future.FuncN(f)(a..) = the future of f(a..), computed by a task of the default executor
+	tryFunc := func(mo monad, curried bool, kind string) emitter {
+		MW := strings.TrimSuffix(mo.ty(""), "[]")
+		mty := mo.ty("[]int")
 		return func(g *generator, m *member) {
 			k := m.TP - 1
 			if k != m.N {
@@ -400,12 +415,12 @@ func init() {
 			}
 			{
 				fr := map[string]string{"ptr": "(*" + pN(k+1) + ", error)", "pure": pN(k + 1), "err": "(" + pN(k+1) + ", error)"}[kind]
-				out := fnTy(ptys(0, 1, k), "fp.Try["+pN(k+1)+"]")
+				out := fnTy(ptys(0, 1, k), MW+"["+pN(k+1)+"]")
 				if curried {
-					out = sP(0).curriedTy(1, k, "fp.Try["+pN(k+1)+"]")
+					out = sP(0).curriedTy(1, k, MW+"["+pN(k+1)+"]")
 				}
 				if k == 0 {
-					out = "func(fp.Unit) fp.Try[P1]"
+					out = "func(fp.Unit) " + MW + "[P1]"
 				}
 				if !g.shape(m, nil, []string{fnTy(ptys(0, 1, k), fr)}, []string{out}) {
 					return
@@ -413,7 +428,7 @@ func init() {
 			}
 			if k == 0 {
 				rt, body := ret(sInt, "[]int{a1}")
-				g.sub(m, 1, 0, fmt.Sprintf("\t\tf0 := func() %s { %s }\n", rt, body)+tryM.clause(m, "success", "", fmt.Sprintf("try.%s(f0)(fp.Unit{})", m.Name), "v"))
+				g.sub(m, 1, 0, fmt.Sprintf("\t\tf0 := func() %s { %s }\n", rt, body)+mo.clause(m, "success", "", fmt.Sprintf("%s.%s(f0)(fp.Unit{})", mo.pkg, m.Name), "v"))
 				return
 			}
 			var b strings.Builder
@@ -423,24 +438,27 @@ func init() {
 				b.WriteString("\t\t{\n" + s.vals(k))
 				fmt.Fprintf(&b, "\t\tfe := func(%s) %s { %s }\n", s.decl(1, k), rt, body)
 				if curried {
-					b.WriteString(tryM.clause(m, "success"+s.tag, fmt.Sprintf("var c %s = try.%s(fe)", s.curriedTy(1, k, "fp.Try[[]int]"), m.Name), curriedApply("c", s, seq(1, k)), "v"))
+					b.WriteString(mo.clause(m, "success"+s.tag, fmt.Sprintf("var c %s = %s.%s(fe)", s.curriedTy(1, k, mty), mo.pkg, m.Name), curriedApply("c", s, seq(1, k)), "v"))
 				} else {
-					b.WriteString(tryM.clause(m, "success"+s.tag, fmt.Sprintf("var tf fp.Func%d[%s, fp.Try[[]int]] = try.%s(fe)", k, s.tys(1, k), m.Name), fmt.Sprintf("tf(%s)", s.args(1, k)), "v"))
+					b.WriteString(mo.clause(m, "success"+s.tag, fmt.Sprintf("var tf fp.Func%d[%s, %s] = %s.%s(fe)", k, s.tys(1, k), mty, mo.pkg, m.Name), fmt.Sprintf("tf(%s)", s.args(1, k)), "v"))
 				}
 				b.WriteString("\t\t}\n")
 			}
 			g.sub(m, k, k, b.String())
 		}
 	}
-	reg("try.func.Func", tryFunc(false, "err"))
-	reg("try.func.Ptr", tryFunc(false, "ptr"))
-	reg("try.func.Curried", tryFunc(true, "err"))
-	reg("try.func.CurriedPure", tryFunc(true, "pure"))
-	reg("try.func.CurriedPtr", tryFunc(true, "ptr"))
+	reg("try.func.Func", tryFunc(tryM, false, "err"))
+	reg("try.func.Ptr", tryFunc(tryM, false, "ptr"))
+	reg("try.func.Curried", tryFunc(tryM, true, "err"))
+	reg("try.func.CurriedPure", tryFunc(tryM, true, "pure"))
+	reg("try.func.CurriedPtr", tryFunc(tryM, true, "ptr"))
+	reg("future.func.Func", tryFunc(futureM, false, "err"))
 	// try.Pure is registered by regMonad (same shape as option.Pure)
 
 	// UnitN(f)(a..) = Apply(Unit{}, f(a..)); CurriedUnitN has an extra, unused type parameter R
-	tryUnit := func(curried bool) emitter {
+	// future.UnitN(f)(a..) = the future of (Unit{}, f(a..)), computed by a task of the default executor
+	tryUnit := func(mo monad, curried bool) emitter {
+		uty := mo.ty("fp.Unit")
 		return func(g *generator, m *member) {
 			k := m.N
 			explicit := ""
@@ -454,34 +472,35 @@ func init() {
 				return
 			}
 			{
-				out := fnTy(ptys(0, 1, k), "fp.Try[fp.Unit]")
+				out := fnTy(ptys(0, 1, k), uty)
 				if curried {
-					out = sP(0).curriedTy(1, k, "fp.Try[fp.Unit]")
+					out = sP(0).curriedTy(1, k, uty)
 				}
 				if k == 0 {
-					out = "func(fp.Unit) fp.Try[fp.Unit]"
+					out = "func(fp.Unit) " + uty
 				}
 				if !g.shape(m, nil, []string{fnTy(ptys(0, 1, k), "error")}, []string{out}) {
 					return
 				}
 			}
 			if k == 0 {
-				g.sub(m, 1, 0, "\t\tvar seen []int\n"+fmt.Sprintf("\t\tchkTryUnit(rt, rec, %s, func() fp.Try[fp.Unit] { return try.%s(func() error { seen = []int{a1}; return nil })(fp.Unit{}) }, &seen, v)\n", sig(m, "success"), m.Name))
+				g.sub(m, 1, 0, "\t\tvar seen []int\n"+fmt.Sprintf("\t\t%s(rt, rec, %s, func() %s { return %s.%s(func() error { seen = []int{a1}; return nil })(fp.Unit{}) }, &seen, v)\n", mo.chkUnit, sig(m, "success"), uty, mo.pkg, m.Name))
 				return
 			}
 			var b strings.Builder
 			b.WriteString("\t\tvar seen []int\n")
 			fmt.Fprintf(&b, "\t\tfu := func(%s) error { seen = %s; return nil }\n", sInt.decl(1, k), sInt.ints(1, k, sInt.arg))
-			call := fmt.Sprintf("try.%s%s(fu)(%s)", m.Name, explicit, sInt.args(1, k))
+			call := fmt.Sprintf("%s.%s%s(fu)(%s)", mo.pkg, m.Name, explicit, sInt.args(1, k))
 			if curried {
-				call = curriedApply(fmt.Sprintf("try.%s%s(fu)", m.Name, explicit), sInt, seq(1, k))
+				call = curriedApply(fmt.Sprintf("%s.%s%s(fu)", mo.pkg, m.Name, explicit), sInt, seq(1, k))
 			}
-			fmt.Fprintf(&b, "\t\tchkTryUnit(rt, rec, %s, func() fp.Try[fp.Unit] { return %s }, &seen, v)\n", sig(m, "success"), call)
+			fmt.Fprintf(&b, "\t\t%s(rt, rec, %s, func() %s { return %s }, &seen, v)\n", mo.chkUnit, sig(m, "success"), uty, call)
 			g.sub(m, k, k, b.String())
 		}
 	}
-	reg("try.func.Unit", tryUnit(false))
-	reg("try.func.CurriedUnit", tryUnit(true))
+	reg("try.func.Unit", tryUnit(tryM, false))
+	reg("try.func.CurriedUnit", tryUnit(tryM, true))
+	reg("future.func.Unit", tryUnit(futureM, false))
 
 	// ---- type class instances of tuples ----------------------------------------------
 	tc := func(build func(m *member, k int, mk, ty string) string) emitter {
